@@ -2,6 +2,7 @@ import Rare.Proofs.C17Gen
 import Rare.Proofs.C17Wf
 import Rare.Proofs.C17Range
 import Rare.Proofs.C17Wrap
+import Rare.Proofs.C17Laws
 import Rare.Spec.C17Wf
 /-!
 # C17 — array helpers obey list semantics
@@ -712,6 +713,227 @@ theorem concat_wellformed (ctx : Ctx) (a0 : Stage) (rest : List Stage) (v0 : Byt
       elems out = (v0 :: vs).flatMap elems ∧
       (elems out = v0 :: vs ↔ ∀ y ∈ v0 :: vs, NUL ∉ y) :=
   ⟨_, concat_spec ctx a0 rest v0 vs h0 hr, elems_pack_flatMap _ (by simp), elems_pack_iff _ (by simp)⟩
+
+/-! ## Composition laws
+
+What the helpers do when one is handed the result of another.  A result is a VALUE (a string); the next helper
+reads it with `elems` again.  Two facts govern every composition: (1) the empty list and the list `[""]` are the
+same value (`pack_eq_nil_iff`), so a helper that receives an EMPTY result sees ONE empty element
+(`elems_pack_of_free`); (2) a member that contains separators reads back as several elements
+(`wellformed_flatten`) – nested arrays do not exist, they flatten. -/
+
+/-- A helper nested INSIDE a sub-expression (`{@map a {@map {0} g}}`): the inner sub-context replaces the outer
+    bindings completely – `{0}`/`{1}` are the inner values, never the outer ones – and keys / negative indices
+    still come from the enclosing match. -/
+theorem sub_context_nested (ctx : Ctx) (a b c d : Bytes) :
+    subCtx (subCtx ctx a b) c d = subCtx ctx c d := by
+  unfold subCtx
+  congr 1
+  funext i
+  by_cases h : i < 0 <;> simp [h]
+
+/-- `@len` of a packed list of separator-free members is the number of members – except that the list `[""]`
+    (one empty element) has length 0: it IS the empty array. -/
+theorem len_counts_packed (ys : List Bytes) (h : ∀ y ∈ ys, NUL ∉ y) :
+    len (pack ys) = if ys = [[]] then 0 else ys.length := len_pack ys h
+
+/-- **map ∘ map.**  `{@map {@map a f} g}`: `g` runs over the FLATTENED values of `f`; when no value of `f`
+    contains a separator this is the fusion law `map g ∘ map f = map (g ∘ f)`. -/
+theorem map_map (ctx : Ctx) (a0 f g : Stage) (arr : Bytes) (F G : Bytes → Bytes → Bytes)
+    (h0 : a0.run ctx = .ok arr) (hf : ∀ v0 v1, f.run (subCtx ctx v0 v1) = .ok (F v0 v1))
+    (hg : ∀ v0 v1, g.run (subCtx ctx v0 v1) = .ok (G v0 v1)) :
+    (mapStage (mapStage a0 f) g).run ctx =
+      .ok (pack ((((elems arr).map fun x => F x []).flatMap elems).map fun y => G y [])) ∧
+    ((∀ x ∈ elems arr, NUL ∉ F x []) →
+      (mapStage (mapStage a0 f) g).run ctx = .ok (pack ((elems arr).map fun x => G (F x []) []))) := by
+  have hne : ((elems arr).map fun x => F x []) ≠ [] := by
+    simp only [ne_eq, List.map_eq_nil_iff]; exact elems_ne_nil arr
+  have h1 := map_spec ctx (mapStage a0 f) g _ G (map_spec ctx a0 f arr F h0 hf) hg
+  refine ⟨by rw [h1, elems_pack_flatMap _ hne], fun hfree => ?_⟩
+  rw [h1, (elems_pack_iff _ hne).mpr (by simpa [List.mem_map] using hfree), List.map_map]
+  rfl
+
+/-- **filter ∘ map.**  `{@filter {@map a f} p}` keeps the (flattened) values of `f` that satisfy `p`. -/
+theorem filter_map_spec (ctx : Ctx) (a0 f p : Stage) (arr : Bytes) (F P : Bytes → Bytes → Bytes)
+    (h0 : a0.run ctx = .ok arr) (hf : ∀ v0 v1, f.run (subCtx ctx v0 v1) = .ok (F v0 v1))
+    (hp : ∀ v0 v1, p.run (subCtx ctx v0 v1) = .ok (P v0 v1)) :
+    (filterStage (mapStage a0 f) p).run ctx =
+      .ok (pack ((((elems arr).map fun x => F x []).flatMap elems).filter fun y => truthy (P y []))) ∧
+    ((∀ x ∈ elems arr, NUL ∉ F x []) →
+      (filterStage (mapStage a0 f) p).run ctx =
+        .ok (pack (((elems arr).map fun x => F x []).filter fun y => truthy (P y [])))) := by
+  have hne : ((elems arr).map fun x => F x []) ≠ [] := by
+    simp only [ne_eq, List.map_eq_nil_iff]; exact elems_ne_nil arr
+  have h1 := filter_spec ctx (mapStage a0 f) p _ P (map_spec ctx a0 f arr F h0 hf) hp
+  refine ⟨by rw [h1, elems_pack_flatMap _ hne], fun hfree => ?_⟩
+  rw [h1, (elems_pack_iff _ hne).mpr (by simpa [List.mem_map] using hfree)]
+
+/-- **map ∘ filter.**  `{@map {@filter a p} f}` maps the kept elements – and when NOTHING is kept the mapper
+    still runs once, on the empty string (the empty array is the array `[""]`): the result is `f("")`, not the
+    empty array. -/
+theorem map_filter_spec (ctx : Ctx) (a0 f p : Stage) (arr : Bytes) (F P : Bytes → Bytes → Bytes)
+    (h0 : a0.run ctx = .ok arr) (hf : ∀ v0 v1, f.run (subCtx ctx v0 v1) = .ok (F v0 v1))
+    (hp : ∀ v0 v1, p.run (subCtx ctx v0 v1) = .ok (P v0 v1)) :
+    (mapStage (filterStage a0 p) f).run ctx =
+      .ok (if (elems arr).filter (fun x => truthy (P x [])) = [] then F [] []
+           else pack (((elems arr).filter fun x => truthy (P x [])).map fun x => F x [])) := by
+  rw [map_spec ctx (filterStage a0 p) f _ F (filter_spec ctx a0 p arr P h0 hp) hf,
+    elems_pack_of_free _ (fun y hy => elems_nul_free arr y (List.mem_filter.mp hy).1)]
+  by_cases he : (elems arr).filter (fun x => truthy (P x [])) = []
+  · simp only [he, if_true]; rfl
+  · simp only [he, if_false]
+
+/-- **len ∘ filter ≤ len.**  Filtering never makes an array longer (in the sense of `@len`). -/
+theorem len_filter_le (ctx : Ctx) (a0 p : Stage) (arr : Bytes) (P : Bytes → Bytes → Bytes)
+    (h0 : a0.run ctx = .ok arr) (hp : ∀ v0 v1, p.run (subCtx ctx v0 v1) = .ok (P v0 v1)) :
+    ∃ out, (filterStage a0 p).run ctx = .ok out ∧ len out ≤ len arr := by
+  refine ⟨_, filter_spec ctx a0 p arr P h0 hp, ?_⟩
+  have hfree : ∀ y ∈ (elems arr).filter (fun x => truthy (P x [])), NUL ∉ y :=
+    fun y hy => elems_nul_free arr y (List.mem_filter.mp hy).1
+  by_cases ha : arr = []
+  · subst ha
+    have : pack ((elems []).filter fun x => truthy (P x [])) = [] :=
+      pack_sublist_unit _ (by rw [elems_nil]; exact List.filter_sublist)
+    rw [this]; simp [len]
+  · rw [len_pack _ hfree, len_pos_eq arr ha]
+    have := List.length_filter_le (fun x => truthy (P x [])) (elems arr)
+    split <;> omega
+
+private theorem elems_length_le (arr : Bytes) (hl : (arr.length : Int) < maxInt64) :
+    ((elems arr).length : Int) ≤ maxInt64 := by
+  have hc : arr.count NUL ≤ arr.length := List.count_le_length
+  rw [elems_length]; omega
+
+/-- **slice ∘ slice.**  `{@slice {@slice a s₁ l₁} s₂ l₂}` is the list-level composition, for ALL starts and
+    lengths (an empty intermediate result included: the empty list and `[""]` slice to the same value). -/
+theorem slice_slice_spec (ctx : Ctx) (a0 a1 a2 : Stage) (r1 r2 : List Stage) (arr : Bytes) (s1 l1 s2 l2 : Int)
+    (hr1 : r1.length ≤ 1) (hr2 : r2.length ≤ 1)
+    (hs1 : evalStageInt a1 = .ok (some s1)) (hn1 : evalArgInt (a0 :: a1 :: r1) 2 (-1) = .ok (some l1))
+    (hs2 : evalStageInt a2 = .ok (some s2))
+    (hn2 : evalArgInt (sliceStage s1 l1 a0 :: a2 :: r2) 2 (-1) = .ok (some l2))
+    (h0 : a0.run ctx = .ok arr) (hl : (arr.length : Int) < maxInt64) :
+    (sliceStage s2 l2 (sliceStage s1 l1 a0)).run ctx = .ok (pack (slice (slice (elems arr) s1 l1) s2 l2)) := by
+  have hin := (slice_spec ctx a0 a1 r1 arr s1 l1 hr1 hs1 hn1 h0 hl).2
+  have hfree : ∀ y ∈ slice (elems arr) s1 l1, NUL ∉ y :=
+    fun y hy => elems_nul_free arr y ((slice_sublist _ _ _).subset hy)
+  rw [(slice_spec_wrapped ctx (sliceStage s1 l1 a0) a2 r2 _ s2 l2 hr2 hs2 hn2 hin).2]
+  obtain ⟨b1, b2⟩ := evalStageInt_range hs2
+  have hlen : (((elems (pack (slice (elems arr) s1 l1))).length : Nat) : Int) ≤ maxInt64 := by
+    rw [elems_pack_of_free _ hfree]
+    have h1 := (slice_sublist (elems arr) s1 l1).length_le
+    have h2 := elems_length_le arr hl
+    have h3 : 0 < (elems arr).length := List.length_pos_iff.mpr (elems_ne_nil arr)
+    split
+    · simp only [List.length_singleton]; omega
+    · omega
+  rw [(wrapped_is_documented _ s2 l2 hlen b1 b2).2, pack_slice_pack _ hfree]
+
+/-- …in closed form for non-negative starts: ONE slice from `s₁ + s₂`, the second length cut to what the
+    first left. -/
+theorem slice_slice_closed (xs : List Bytes) (s1 l1 s2 l2 : Int) (h1 : 0 ≤ s1) (h2 : 0 ≤ s2) :
+    slice (slice xs s1 l1) s2 l2 =
+      slice xs (s1 + s2) (if l1 < 0 then l2 else if l2 < 0 then max 0 (l1 - s2) else min l2 (max 0 (l1 - s2))) :=
+  slice_slice_nonneg xs s1 l1 s2 l2 h1 h2
+
+/-- **select ∘ map = map at the index.**  `{@select {@map a f} i}` (values of `f` separator-free) is `f` of the
+    selected element when position `i` exists, and NOTHING otherwise (`f` is not applied to "nothing"). -/
+theorem select_map_spec (ctx : Ctx) (a0 a1 f : Stage) (arr : Bytes) (F : Bytes → Bytes → Bytes) (i : Int)
+    (hi : evalStageInt a1 = .ok (some i))
+    (h0 : a0.run ctx = .ok arr) (hf : ∀ v0 v1, f.run (subCtx ctx v0 v1) = .ok (F v0 v1))
+    (hfree : ∀ x ∈ elems arr, NUL ∉ F x []) (hl : (arr.length : Int) < maxInt64) :
+    (selectStage i (mapStage a0 f)).run ctx =
+      .ok (if inRange (elems arr).length i then F (select (elems arr) i) [] else []) := by
+  have hne : ((elems arr).map fun x => F x []) ≠ [] := by
+    simp only [ne_eq, List.map_eq_nil_iff]; exact elems_ne_nil arr
+  rw [(select_spec_wrapped ctx (mapStage a0 f) a1 _ i hi (map_spec ctx a0 f arr F h0 hf)).2]
+  obtain ⟨b1, b2⟩ := evalStageInt_range hi
+  rw [(elems_pack_iff _ hne).mpr (by simpa [List.mem_map] using hfree)]
+  rw [(wrapped_is_documented _ i 0 (by simpa using elems_length_le arr hl) b1 b2).1, select_map]
+
+/-- **reduce ∘ map.**  `{@reduce {@map a f} g init}` (values of `f` separator-free) reduces the mapped list;
+    with an initial value that is the fused fold `foldl (fun acc x => g acc (f x)) init`. -/
+theorem reduce_map_spec (ctx : Ctx) (a0 f g : Stage) (arr init : Bytes) (F G : Bytes → Bytes → Bytes)
+    (h0 : a0.run ctx = .ok arr) (hf : ∀ v0 v1, f.run (subCtx ctx v0 v1) = .ok (F v0 v1))
+    (hg : ∀ v0 v1, g.run (subCtx ctx v0 v1) = .ok (G v0 v1))
+    (hfree : ∀ x ∈ elems arr, NUL ∉ F x []) :
+    (reduceStage init (mapStage a0 f) g).run ctx = .ok (reduce G init ((elems arr).map fun x => F x [])) ∧
+    (init ≠ [] → (reduceStage init (mapStage a0 f) g).run ctx =
+      .ok ((elems arr).foldl (fun acc x => G acc (F x [])) init)) := by
+  have hne : ((elems arr).map fun x => F x []) ≠ [] := by
+    simp only [ne_eq, List.map_eq_nil_iff]; exact elems_ne_nil arr
+  have h1 : (reduceStage init (mapStage a0 f) g).run ctx = .ok (reduce G init ((elems arr).map fun x => F x [])) := by
+    rw [reduce_spec ctx (mapStage a0 f) g _ init G (map_spec ctx a0 f arr F h0 hf) hg,
+      (elems_pack_iff _ hne).mpr (by simpa [List.mem_map] using hfree)]
+  refine ⟨h1, fun hi => ?_⟩
+  rw [h1]; simp [reduce, hi, List.foldl_map]
+
+/-- **join ∘ map.**  `{@join {@map a f} d}` (values of `f` separator-free) joins the mapped elements. -/
+theorem join_map_spec (ctx : Ctx) (a0 f : Stage) (arr d : Bytes) (F : Bytes → Bytes → Bytes)
+    (h0 : a0.run ctx = .ok arr) (hf : ∀ v0 v1, f.run (subCtx ctx v0 v1) = .ok (F v0 v1))
+    (hfree : ∀ x ∈ elems arr, NUL ∉ F x []) :
+    (joinStage d (mapStage a0 f)).run ctx = .ok (join d ((elems arr).map fun x => F x [])) := by
+  have hne : ((elems arr).map fun x => F x []) ≠ [] := by
+    simp only [ne_eq, List.map_eq_nil_iff]; exact elems_ne_nil arr
+  rw [join_spec ctx (mapStage a0 f) _ d (map_spec ctx a0 f arr F h0 hf),
+    (elems_pack_iff _ hne).mpr (by simpa [List.mem_map] using hfree)]
+
+/-- **len ∘ range.**  `{@len {@range start stop incr}}` is the number of terms ⌈(stop-start)/incr⌉ whenever the
+    range is valid and within `MAX_ITERATIONS` ("0" for the empty range). -/
+theorem len_range_spec (ctx : Ctx) (sStart sStop sIncr : Stage) (a b c : Bytes) (start stop incr : Int)
+    (ha : sStart.run ctx = .ok a) (hb : sStop.run ctx = .ok b) (hc : sIncr.run ctx = .ok c)
+    (pa : atoi a = some start) (pb : atoi b = some stop) (pc : atoi c = some incr)
+    (hv : ¬ (incr = 0 ∨ (incr > 0 ∧ start > stop) ∨ (incr < 0 ∧ start < stop)))
+    (hm : rangeCount start stop incr ≤ Gen.maxIterations) :
+    (lenStage (rangeStage sStart sStop sIncr)).run ctx = .ok (itoa (rangeCount start stop incr : Nat)) := by
+  have h1 := range_spec_closed ctx sStart sStop sIncr a b c start stop incr ha hb hc pa pb pc
+  rw [if_neg hv, if_pos hm] at h1
+  rw [len_spec_wrapped ctx _ _ h1]
+  have hfree : ∀ y ∈ (range start stop incr).map itoa, NUL ∉ y := by
+    intro y hy
+    obtain ⟨v, _, rfl⟩ := List.mem_map.mp hy
+    exact itoa_nul_free v
+  by_cases h0 : rangeCount start stop incr = 0
+  · have : range start stop incr = [] := List.eq_nil_of_length_eq_zero (by rw [range_length]; exact h0)
+    rw [this, h0]
+    exact congrArg Except.ok (by decide +kernel)
+  · have hne : (range start stop incr).map itoa ≠ [] := by
+      intro e
+      have := congrArg List.length e
+      rw [List.length_map, range_length] at this
+      exact h0 (by simpa using this)
+    have hp : pack ((range start stop incr).map itoa) ≠ [] := by
+      intro e
+      rcases (pack_eq_nil_iff _).mp e with e | e
+      · exact hne e
+      · have : itoa start ∈ ([[]] : List Bytes) := by
+          rw [← e]
+          have : start ∈ range start stop incr := by
+            unfold range
+            exact List.mem_map.mpr ⟨0, List.mem_range.mpr (by omega), by simp⟩
+          exact List.mem_map.mpr ⟨start, this, rfl⟩
+        exact itoa_ne_nil start (by simpa using this)
+    rw [if_neg hp, (elems_pack_iff _ hne).mpr hfree, List.length_map, range_length]
+    have hM : Gen.maxIterations = 1000000 := rfl
+    rw [wrap64_id _ (by unfold minInt64; omega) (by unfold maxInt64; omega)]
+
+/-- **Nested arrays flatten.**  `{@map {@split s d₁} {@split {0} d₂}}` (the inner helper sees ONE piece as
+    `{0}`; `s` without separators): the pieces of the pieces, in order, as ONE flat array. -/
+theorem nested_split_flattens (ctx : Ctx) (a0 : Stage) (s d1 d2 : Bytes) (hd1 : d1 ≠ []) (hd2 : d2 ≠ [])
+    (h0 : a0.run ctx = .ok s) (hs : NUL ∉ s) :
+    ∃ out, (mapStage (splitStage d1 a0) (splitStage d2 (Comp.match_ 0))).run ctx = .ok out ∧
+      elems out = (splitOn d1 s).flatMap (splitOn d2) := by
+  have hin : ∀ v0 v1, (splitStage d2 (Comp.match_ 0)).run (subCtx ctx v0 v1) =
+      .ok ((fun x _ => pack (splitOn d2 x)) v0 v1) :=
+    fun v0 v1 => split_spec (subCtx ctx v0 v1) (Comp.match_ 0) v0 d2 hd2 rfl
+  obtain ⟨out, e1, e2, _⟩ := map_wellformed ctx (splitStage d1 a0) (splitStage d2 (Comp.match_ 0)) _
+    (fun x _ => pack (splitOn d2 x)) (split_spec ctx a0 s d1 hd1 h0) hin
+  refine ⟨out, e1, ?_⟩
+  have hne1 : splitOn d1 s ≠ [] := by unfold splitOn; exact splitGo_ne_nil _ _ _ _
+  rw [e2, (elems_pack_iff _ hne1).mpr (splitOn_nul_free d1 hd1 s hs), List.flatMap_map]
+  apply flatMap_congr_mem
+  intro x hx
+  have hx' : NUL ∉ x := splitOn_nul_free d1 hd1 s hs x hx
+  exact (elems_pack_iff _ (by unfold splitOn; exact splitGo_ne_nil _ _ _ _)).mpr (splitOn_nul_free d2 hd2 x hx')
 
 /-! ## Builders: arity, static arguments, markers -/
 
